@@ -12,12 +12,14 @@ import (
 	"github.com/hujm2023/go-sms-protocol/smpp"
 	"pgregory.net/rapid"
 
+	"verifharness/gen"
 	"verifharness/vk"
 )
 
 var rec = vk.NewRecorder("C19")
 
 func TestMain(m *testing.M) {
+	vk.Disturb = gen.Disturb
 	code := m.Run()
 	rec.Flush("all")
 	os.Exit(code)
@@ -32,6 +34,10 @@ type Case struct {
 	NowNanos int64  `json:"now_nanos"`
 	ZoneSecs int    `json:"zone_secs"` // 0 = UTC, else a fixed zone east of UTC
 	Relative bool   `json:"relative"`
+	// the PROCESS time zone (time.Local) while the call runs: 0 = UTC as in this sandbox, else a fixed zone
+	// this many seconds east of UTC. The result must not depend on it (a validity period denotes an
+	// instant / a duration, and the absolute form is defined in UTC).
+	LocalSecs int `json:"process_zone_secs,omitempty"`
 }
 
 func (c Case) now() time.Time {
@@ -66,7 +72,14 @@ func parse16(s string) (f [6]int, tenths, nn int, p byte, ok bool) {
 func check(c Case) *vk.Violation {
 	var out string
 	var err error
-	if pn := vk.Guarded("period", "ToValidatePeriod/hang", func() any { return c }, func() { out, err = smpp.ToValidatePeriod(c.now(), c.Dur, c.Relative) }); pn != "" {
+	if pn := vk.Guarded("period", "ToValidatePeriod/hang", func() any { return c }, func() {
+		if c.LocalSecs != 0 {
+			saved := time.Local
+			time.Local = time.FixedZone("P", c.LocalSecs)
+			defer func() { time.Local = saved }()
+		}
+		out, err = smpp.ToValidatePeriod(c.now(), c.Dur, c.Relative)
+	}); pn != "" {
 		return vk.Violf("ToValidatePeriod/panic", c, "ToValidatePeriod panicked\n%s", pn)
 	}
 	vk.RetainString("ToValidatePeriod", out)
@@ -280,6 +293,11 @@ func TestPeriods(t *testing.T) {
 	rapid.Check(t, func(t *rapid.T) {
 		n := nowGen.Draw(t, "now")
 		c := Case{NowUnix: n[0], NowNanos: n[1], ZoneSecs: int(n[2]), Relative: rapid.Bool().Draw(t, "relative"), Valid: true}
+		if rapid.IntRange(0, 2).Draw(t, "processzone") == 0 {
+			// Asia/Shanghai, US west coast, India (half hour), Nepal (quarter hour), the date line, and a shift of months
+			c.LocalSecs = rapid.SampledFrom([]int{8 * 3600, -8 * 3600, 19800, 20700, 14 * 3600, -12 * 3600, 1, -1, 150 * 86400, -150 * 86400}).Draw(t, "localsecs")
+			rec.Class("process_time_zone_not_utc")
+		}
 		switch rapid.IntRange(0, 11).Draw(t, "durclass") {
 		case 0:
 			c.Valid = false
